@@ -1965,6 +1965,14 @@ fn plan_keeper(w: &World, actor: &mut Actor, l: &Ledger) -> Vec<(Tx, String)> {
             }
         }
     }
+    if rng.chance(1, 14) {
+        // a stranger sends lamports to the oracle address of a pool (for a static-fee pool nobody ever creates that account:
+        // the address then holds lamports and nothing else)
+        let key = pi.keys.oracle;
+        if !l.exists(&key) {
+            RAW_EVENTS.with(|r| r.borrow_mut().push(HEvent::Put { key, lamports: 1 + rng.below(10_000_000), owner: ix::sys(), data: vec![], tag: "lamports sent to the oracle address of a pool without an oracle".into() }));
+        }
+    }
     if rng.chance(1, 10) {
         // anyone may create tick arrays: on the grid far from the price, at both ends of the tick axis, and at starts that are
         // off the grid by a tick, a spacing or half a width, below the lowest array or beyond the highest tick (to be refused)
